@@ -291,6 +291,36 @@ Definition res_write (closing : bool) (g : gores) : wire_res :=
         ++ filter (fun h => negb (mem_name (fst h) res_write_exclude)) (r_hdr g))
     (r_body g) framed.
 
+(* A response without a body (to HEAD; 204; 304) still has framing headers, and
+   for HEAD they are the origin's statement about the GET representation:
+   net/http keeps a HEAD response's Content-Length (as a number) and its
+   "chunked" and Response.Write writes them back; for 204/304 it writes none. *)
+Definition is_head (r : reqmsg) : bool := str_eqb (meth r) (s "HEAD").
+
+Definition head_framing (r : respmsg) : list header :=
+  let h := lower_names (shdrs r) in
+  if has_token (s "chunked") (vals (s "transfer-encoding") h) then [(s "transfer-encoding", s "chunked")]
+  else match hget (s "content-length") h with
+       | Some v => [(s "content-length", v)]
+       | None => []
+       end.
+
+(* Response.Write's shouldSendContentLength: "many servers expect a
+   Content-Length for these methods" - it is applied to RESPONSES too, so a
+   bodiless answer to POST/PUT/PATCH gets a Content-Length: 0 of the proxy's own *)
+Definition wants_cl0 (q : reqmsg) : bool :=
+  (str_eqb (meth q) (s "POST") || str_eqb (meth q) (s "PUT") || str_eqb (meth q) (s "PATCH"))%bool.
+
+Definition bodiless_framing (q : reqmsg) (r : respmsg) : list header :=
+  if is_head q then head_framing r
+  else if wants_cl0 q then [(s "content-length", s "0")] else [].
+
+Definition add_head_framing (q : reqmsg) (r : respmsg) (w : wire_res) : wire_res :=
+  match sframing r with
+  | FBodiless => mkWRes (c_status w) (bodiless_framing q r ++ c_hdrs w) (c_body w) (c_complete w)
+  | _ => w
+  end.
+
 (* one pass through Proxy.handle for a non-CONNECT request, no modifiers, proxy not closing *)
 Definition handle_model (compress : bool) (dec : bodytok -> bodytok) (e : exchange)
   : wire_req * wire_res * bool :=
@@ -298,7 +328,7 @@ Definition handle_model (compress : bool) (dec : bodytok -> bodytok) (e : exchan
   let wq := transport_send compress g in
   let r := go_read_response (wants_gzip compress g) dec (resp_of e) in
   let closing := (g_close g || r_close r)%bool in        (* proxy.go:525 *)
-  (wq, res_write closing r, closing).
+  (wq, add_head_framing (rq e) (resp_of e) (res_write closing r), closing).
 
 (* handleLoop: handle until errClose *)
 Fixpoint conn_run (compress : bool) (dec : bodytok -> bodytok) (es : list exchange) : conn_obs :=
@@ -384,6 +414,16 @@ Definition res_preserved_b (r : respmsg) (c : wire_res) : bool :=
    && body_eqb (c_body c) (sbody r)
    && c_complete c)%bool.
 
+(* bodiless responses: the framing headers the client sees (presence AND value
+   of Content-Length, Transfer-Encoding) are the origin's *)
+Definition framing_names : list str := [s "content-length"; s "transfer-encoding"].
+
+Definition res_framing_preserved_b (r : respmsg) (c : wire_res) : bool :=
+  match sframing r with
+  | FBodiless => forallb (fun n => strs_eqb (vals n (c_hdrs c)) (vals n (shdrs r))) framing_names
+  | _ => true
+  end.
+
 Fixpoint forall2b {A B} (f : A -> B -> bool) (a : list A) (b : list B) : bool :=
   match a, b with
   | [], [] => true
@@ -408,12 +448,15 @@ Definition c01_req_ok (es : list exchange) (o : conn_obs) : bool :=
 Definition c01_res_ok (es : list exchange) (o : conn_obs) : bool :=
   forall2b res_preserved_b (map resp_of (served es)) (client_got o).
 
+Definition c01_frm_ok (es : list exchange) (o : conn_obs) : bool :=
+  forall2b res_framing_preserved_b (map resp_of (served es)) (client_got o).
+
 Definition c01_close_ok (es : list exchange) (o : conn_obs) : bool :=
   Bool.eqb (closed o) (existsb wants_close es).
 
 (* the property oracle *)
 Definition c01_ok (es : list exchange) (o : conn_obs) : bool :=
-  (c01_req_ok es o && c01_res_ok es o && c01_close_ok es o)%bool.
+  (c01_req_ok es o && c01_res_ok es o && c01_frm_ok es o && c01_close_ok es o)%bool.
 
 (* Guard of the request-header clause: net/http's Request.write forwards only
    the first User-Agent value and nothing at all when that value is empty. *)
@@ -430,6 +473,28 @@ Definition host_ok (r : reqmsg) : bool :=
   match vals (s "host") (rhdrs r) with [_] => true | _ => false end.
 
 Definition wf_req (r : reqmsg) : bool := (ua_ok r && host_ok r)%bool.
+
+(* Guard of the framing clause: for HEAD the origin states at most one
+   Content-Length and no Transfer-Encoding (after a HEAD response that says
+   "chunked" net/http's Response.Write emits a stray CRLF: known finding
+   C01-K5, outside this model); a 204 / 304 carries no framing header at all
+   (Response.Write drops the Content-Length of a 304: C01-K3) and is not the
+   answer to POST/PUT/PATCH (Response.Write adds Content-Length: 0: C01-K4). *)
+Definition is_nil {A} (l : list A) : bool := match l with [] => true | _ => false end.
+
+Definition framing_ok (e : exchange) : bool :=
+  let r := resp_of e in
+  match sframing r with
+  | FBodiless =>
+      let cl := vals (s "content-length") (shdrs r) in
+      let te := vals (s "transfer-encoding") (shdrs r) in
+      if is_head (rq e) then
+        (is_nil te && match cl with [] | [_] => true | _ => false end)%bool
+      else (negb (wants_cl0 (rq e)) && is_nil cl && is_nil te)%bool
+  | _ => true
+  end.
+
+Definition wf_ex (e : exchange) : bool := (wf_req (rq e) && framing_ok e)%bool.
 
 (* ---------------------------------------------------------------- correspondence projections *)
 
@@ -458,7 +523,11 @@ Definition obs_agree (es : list exchange) (m o : conn_obs) : bool :=
   (forall3b (fun e a b => wreq_equiv (nominated (rhdrs (rq e))) a
                             (match rd e with ReadAll => b | ReadSome _ => with_body b (w_body a) end))
             (firstn (List.length (origin_saw m)) es) (origin_saw m) (origin_saw o)
-   && forall3b (fun e a b => wres_equiv (nominated (shdrs (resp_of e))) a b)
+   && forall3b (fun e a b => (wres_equiv (nominated (shdrs (resp_of e))) a b
+                               && match sframing (resp_of e) with
+                                  | FBodiless => forallb (fun n => strs_eqb (vals n (c_hdrs a)) (vals n (c_hdrs b))) framing_names
+                                  | _ => true
+                                  end)%bool)
             (firstn (List.length (client_got m)) es) (client_got m) (client_got o)
    && Bool.eqb (closed m) (closed o))%bool.
 
